@@ -267,6 +267,8 @@ class C18(Profile):
                "the work-item order and after incremental edits that create and break cycles")
   quick_runs = 400
   max_events = 14
+  cpu_timeout_is_violation = True     # "recalculation terminates"
+  run_time_limit = 40                 # CPU seconds; a run of this profile takes well under one
 
   def config(self, rng, tier):
     return {"max_events": rng.randint(4, self.max_events), "ncols": rng.choice([3, 3, 4, 5, 6]),
@@ -536,7 +538,7 @@ class C29(HistoryProfile):
   def base_weights(self):
     w = dict(gen.DEFAULT_WEIGHTS)
     w.update({"add_formula_column": 10, "add_summary": 5, "add_summary_formula": 2, "trigger_column": 3,
-              "display_formula": 2})
+              "display_formula": 2, "derived_trigger": 5})
     return w
 
   def new_sim(self, cfg):
